@@ -398,7 +398,7 @@ pub fn judge(sc: &QScenario, o: &QObs, res: &RunResult, which: &str) -> Vec<(Str
             }
         }
         // recv_timeout bounds (virtual clock)
-        let timer_deviation = res.decisions.iter().any(|d| d.kinds[d.chosen as usize] == AltKind::Timer);
+        let timer_deviation = res.decisions.iter().any(|d| matches!(d.kinds[d.chosen as usize], AltKind::Timer | AltKind::Late));
         for c in &o.calls {
             if c.kind == "PopTimeout" {
                 if let Some((v, t, _)) = c.returned {
@@ -698,7 +698,7 @@ pub fn rule_text(which: &str, tier: Tier, n: usize) -> String {
         "1..3 blocked recv callers x 1..3 unblock calls (exactly min(u,c) must be released); every multiset of 1..2 receiver programs over {pop, pop_timeout(T), try_pop} x 0..1 queued element x 1..2 unblock calls issued at {0, T/2, T-0.5ms, T} x receivers blocked first or racing"
     };
     format!(
-        "real MessagesQueue<u32>, T = {} ms virtual; {}; plus churn scenarios (a thread that pushes or unblocks and at once takes the element back with try_pop, 1..3 times (thorough: 4) at T/4..T/2 intervals, so that blocked receivers {{recv_timeout, recv, two calls, pairs}} are woken for nothing several times during one call); {} scenarios, each explored for ALL schedules with at most {} deviations (a preemption, an early timeout, an unusual notify_one wake-up or a SPURIOUS return from a condition-variable wait costs 1; choosing among the runnable threads when the running one blocks is free for <= 3 threads [chess] and costs 1 otherwise [strict]), bounds iterated from 0; every execution judged at quiescence (conservation, exactly-once, per-producer order, no element or unblock token queued while a receiver is blocked, token accounting, try_pop enters no wait, virtual-time bounds); non-trivial = every scenario has >= 2 threads sharing the queue",
+        "real MessagesQueue<u32>, T = {} ms virtual; {}; plus churn scenarios (a thread that pushes or unblocks and at once takes the element back with try_pop, 1..3 times (thorough: 4) at T/4..T/2 intervals, so that blocked receivers {{recv_timeout, recv, two calls, pairs}} are woken for nothing several times during one call); {} scenarios, each explored for ALL schedules with at most {} deviations (a preemption, an early timeout, an unusual notify_one wake-up, a SPURIOUS return from a condition-variable wait, or a notified timed wait that is scheduled only after its deadline (LATE) costs 1; choosing among the runnable threads when the running one blocks is free for <= 3 threads [chess] and costs 1 otherwise [strict]), bounds iterated from 0; every execution judged at quiescence (conservation, exactly-once, per-producer order, no element or unblock token queued while a receiver is blocked, token accounting, try_pop enters no wait, virtual-time bounds); non-trivial = every scenario has >= 2 threads sharing the queue",
         T_MS, fam, n, if tier == Tier::Thorough { "4 chess / 3 chess / 3 strict (for <= 2 / 3 / more threads sharing the queue)" } else { "2 chess / 2 strict (for <= 3 / more threads sharing the queue)" }
     )
 }
